@@ -220,14 +220,24 @@ End Validator.
 (** * Abstract signatures (DESIGN section 2)
 
     A signature is the pair (signer, message) it was made over; anything else that deserializes is
-    [SigJunk], except the one class behind the known crash: [SigEthShort], a signature of scheme
-    KECCAK256WithECDSA whose value has fewer than ETH_RECOVERY_ID_OFFSET bytes (Verify slices
-    sig[:64] for an Ethereum-style key and panics).
+    [SigJunk].  Two classes of run-time panics of the crypto library's Verify are part of the
+    model (both are known findings of C16):
+    - [SigEthShort]: a signature of scheme KECCAK256WithECDSA whose value has fewer than
+      ETH_RECOVERY_ID_OFFSET bytes; Verify slices sig[:64] for an Ethereum-style key and panics;
+    - [weak] keys: an EC key given in uncompressed form is not checked to lie on its curve
+      (ec.DecodePublicKey, "TODO verify whether (x,y) is on the curve"); Go's curve arithmetic
+      panics on such a point.  Whether a signature reaches that arithmetic depends on its scheme
+      and on the range of (r, s) relative to the order of the key's curve; the harness determines
+      it by calling Verify with an off-curve key of every curve label, and the signature carries
+      the list [pc] of the curve labels on which it does.
 
-    The signer is identified by what the crypto library's Verify looks at: for *ec.PublicKey
-    (key types ECDSA and SM2) the curve and the point - the algorithm tag of the key is not
-    consulted, the signature's scheme byte selects ECDSA or SM2 - and the whole key otherwise. *)
-Inductive asig := SigOf (k : pubkey) (m : bytes) | SigJunk | SigEthShort.
+    The signer is identified by what Verify looks at: for *ec.PublicKey (key types ECDSA and SM2)
+    the curve and the point - the algorithm tag of the key is not consulted, the signature's
+    scheme byte selects ECDSA or SM2 - and the whole key otherwise. *)
+Inductive asig := SigOf (k : pubkey) (m : bytes) (pc : list N) | SigJunk (pc : list N) | SigEthShort.
+
+Definition sig_panic_curves (s : asig) : list N :=
+  match s with SigOf _ _ pc | SigJunk pc => pc | SigEthShort => [] end.
 
 Definition is_ec (k : pubkey) : bool := (pk_type k =? PK_ECDSA) || (pk_type k =? PK_SM2).
 
@@ -236,9 +246,15 @@ Definition same_signer (a b : pubkey) : bool :=
   then (pk_curve a =? pk_curve b) && (pk_x a =? pk_x b) && (pk_y a =? pk_y b)
   else pubkey_eqb a b.
 
+Section AbsVerify.
+(** [weak k]: an EC key whose point is not on its curve. *)
+Variable weak : pubkey -> bool.
+
 Definition abs_verify (k : pubkey) (m : bytes) (s : asig) : vout :=
-  match s with
-  | SigOf k' m' => if same_signer k k' && bytes_eqb m m' then VTrue else VFalse
-  | SigJunk => VFalse
+  if weak k && existsb (N.eqb (pk_curve k)) (sig_panic_curves s) then VPanic
+  else match s with
+  | SigOf k' m' _ => if same_signer k k' && bytes_eqb m m' then VTrue else VFalse
+  | SigJunk _ => VFalse
   | SigEthShort => if pk_type k =? PK_ETHECDSA then VPanic else VFalse
   end.
+End AbsVerify.
